@@ -335,11 +335,14 @@ namespace Pistache::Tcp
                             ::close(buffer.fd());
                         }
 
-                        cleanUp();
-
                         // Cast to match the type of defered template
                         // to avoid a BadType exception
-                        deferred.resolve(static_cast<ssize_t>(buffer.sentBefore() + totalWritten));
+                        // (cleanUp pops the entry: buffer cannot be used after it)
+                        ssize_t written = static_cast<ssize_t>(buffer.sentBefore() + totalWritten);
+
+                        cleanUp();
+
+                        deferred.resolve(written);
                         break;
                     }
                 }
